@@ -6,6 +6,7 @@
 import E2P.Model.Peg
 import E2P.Generated.Grammar
 import Mathlib.Data.List.Basic
+import E2P.Model.Lex
 namespace E2P.C05
 open E2P
 
@@ -348,6 +349,21 @@ def symbolsDefined (G : Grammar) (terminals : List String) : Bool :=
   G.rules.all fun kv => kv.2.all fun set => !set.isEmpty && set.all fun s => terminals.contains s || (G.composites.contains s && G.rules.any (·.1 == s))
 
 theorem generated_symbols_defined : symbolsDefined generated E2P.Generated.lexerOrder = true := by decide
+
+/-! ### the lexer model is the lexer of this run -/
+
+/-- the regex sources of the five classes with hand-written scanners (and of WhitespaceToken) in the repository are, character
+    for character, the ones the scanners of `E2P.Model.Lex` were written for -/
+theorem pinned_sources : Lex.pinned.all (fun e => E2P.Generated.lexerRegexes.contains e) = true := by decide +kernel
+
+/-- no class of `Lexer.TOKENS` is outside the model: the five pinned ones, WhitespaceToken, UndefinedToken, and classes whose
+    regex is an alternation of escaped literals (interpreted from the regenerated table) -/
+theorem lexer_table_modelled :
+    (Lex.table E2P.Generated.lexerOrder E2P.Generated.lexerRegexes).all (fun kv => kv.2 != Lex.Scanner.unsupported) = true := by decide +kernel
+
+/-- both separators (and `~`) are the same token class, so `separator_blind` applies to the lexed formula -/
+theorem separators_one_class :
+    Lex.scannerOf E2P.Generated.lexerRegexes "SeparatorToken" = .alts [[';'], [','], ['~']] := by decide +kernel
 
 /-! ### non-vacuity on the grammar of this run -/
 
